@@ -37,6 +37,8 @@ impl Tag {
     pub fn as_array(&self) -> (r: &[u8; 16]) ensures r@ == self.t@ { &self.t }
 }
 
+impl VAsBytes for Tag { open spec fn bytes(&self) -> Seq<u8> { self.t@ } }
+
 /// crypto::aesgcm::AesGcm256 (incremental). Ghost state: key, nonce, aad, ciphertext processed so far.
 pub struct AesGcm256 { pub key: Ghost<Seq<u8>>, pub nonce: Ghost<Seq<u8>>, pub aad: Ghost<Seq<u8>>, pub ct: Ghost<Seq<u8>> }
 
